@@ -25,6 +25,11 @@ func GenPlan(family string, seed uint64) *Plan {
 	if family == "c09stop" {
 		enumerateStopPoint(p, seed)
 	}
+	if family == "c02stop" {
+		until, tail := p.Until, p.Tail
+		enumerateStopPoint(p, seed)
+		p.Until, p.Tail = until, tail
+	}
 	if p.Bucket == "" {
 		p.Bucket = "leaders"
 	}
@@ -240,6 +245,11 @@ func init() {
 			p.Actions = append(p.Actions, Action{At: t0, Kind: AStart, Inst: 1})
 		case 9: // slow store: latencies around the time-out
 			p.Faults = append(p.Faults, Fault{Kind: FSlow, Inst: 0, Op: "update", From: t0, Arg: r.Dur(T/2, 2*T)})
+		}
+		// a share of the plans speaks natsmock's error texts ("revision mismatch", "key not found"),
+		// which take the heartbeat through its other classification branch
+		if r.Bool(0.15) {
+			p.Store.Dialect = "mock"
 		}
 		p.Note = fmt.Sprintf("fault kind %d at attempt %d", kind, k)
 		p.Until = t0 + 4*p.H + 5*T + p.TTL
@@ -835,4 +845,29 @@ func enumerateStopPoint(p *Plan, seed uint64) {
 	p.Until = 20*p.H + 3*p.TTL + 8*sec
 	p.Tail = 0
 	p.Sched = SchedCfg{YieldProb: Pick(r, []float64{0, 0.2}), StallMax: 0}
+}
+
+func init() {
+	// C02/C07 with enumerated stop points: the fault-free family (every operation below H/2, no
+	// takeover, no outsider) with the stop of instance 0 placed by (operation number, phase).
+	families["c02stop"] = func(r *Rng) *Plan {
+		p := families["faultfree"](r)
+		// keep the starts, drop the random lifecycle of instance 0 (its stop is enumerated)
+		var acts []Action
+		seen := map[int]bool{}
+		for _, a := range p.Actions {
+			if a.Inst == 0 {
+				if a.Kind == AStart && !seen[0] {
+					seen[0] = true
+					a.At = 0
+					acts = append(acts, a)
+				}
+				continue
+			}
+			acts = append(acts, a)
+		}
+		p.Actions = acts
+		p.Judge = []string{"C02", "C07", "C08", "C18", "C19", "C09"}
+		return p
+	}
 }
